@@ -81,5 +81,24 @@ def compute_dynamics_times(inp):
     return {'violates': False, 'cases': len(cases)}
 
 
+def dynamics_add(inp):
+    """Dynamics.add / Dynamics(times, states) with times in any order: times sorted, every state keeps its time"""
+    import itertools
+    import oqupy
+    bad = []
+    for perm in itertools.permutations([0.0, 0.1, 0.25, 0.4]):
+        d = oqupy.Dynamics()
+        for t in perm:
+            d.add(t, np.array([[t, 0.0], [0.0, 1.0 - t]]))
+        ts = [float(x) for x in d.times]
+        ok = ts == sorted(ts) and all(abs(complex(s[0, 0]).real - t) < 1e-12 for t, s in zip(ts, d.states))
+        d2 = oqupy.Dynamics(times=list(perm), states=[np.array([[t, 0.0], [0.0, 1.0 - t]]) for t in perm])
+        ts2 = [float(x) for x in d2.times]
+        ok2 = ts2 == sorted(ts2) and all(abs(complex(s[0, 0]).real - t) < 1e-12 for t, s in zip(ts2, d2.states))
+        if not (ok and ok2):
+            bad.append({'insertion order of the times': list(perm), 'times': ts, 'state labels': [float(complex(s[0, 0]).real) for s in d.states]})
+    return {'violates': bool(bad), 'detail': bad[:3], 'n_bad': len(bad)}
+
+
 # thorough tier (bounded native sweeps): (function, inputs, obligation of the open finding it reproduces or None)
-THOROUGH = [('steps_search', {}, None), ('compute_dynamics_times', {}, None)]
+THOROUGH = [('steps_search', {}, None), ('compute_dynamics_times', {}, None), ('dynamics_add', {}, None)]
